@@ -2001,3 +2001,90 @@ Example C01_statement_all2_nonvacuous :
                  | _, _ => False end in
   ok fnar_1 /\ ok fnar_2 /\ ok fnar_3 /\ ok fnar_4 /\ ok fnar_5.
 Proof. vm_compute. repeat split. Qed.
+
+(* ====================================================================================== *)
+(* First file-BASE arm: "file:" + two slashes against ANY base (task c01file3)              *)
+(* ====================================================================================== *)
+From RU Require Import Proofs.C01_EqFileTwo.
+
+(* the Standard's side alone: "file:" followed by two '/' '\' (any mix): file state -> file slash state -> file host
+   state, for ANY base (a file URL included: the base is read only in the other arms of the two states) - the
+   outcome is `sfile` of the text, as without a base *)
+Theorem C01_file_two_slashes_spec : forall shp base input c1 c2 T,
+  spec_scheme (spec_clean input) = Some (str_file, c1 :: c2 :: T) -> is_sl c1 = true -> is_sl c2 = true ->
+  match sfile shp u_file0 (c1 :: c2 :: T) with
+  | Some su => spec_basic_url_parse shp input base = BDone su
+  | None => exists uf, spec_basic_url_parse shp input base = BFailure uf
+  end.
+Proof. exact spec_file_two. Qed.
+Print Assumptions C01_file_two_slashes_spec.
+
+(* the model's side alone: behind two separators parse_file takes the file-host arm before it looks at the base *)
+Theorem C01_file_two_slashes_model : forall dbg hp hd bf l c1 c2 T,
+  ntnl l = c1 :: c2 :: T -> is_sl c1 = true -> is_sl c2 = true ->
+  parse_file dbg hp hd None CUrlParser STFile bf l = parse_file dbg hp hd None CUrlParser STFile None l.
+Proof. exact parse_file_two. Qed.
+Print Assumptions C01_file_two_slashes_model.
+
+(* the class: every scalar-value input "file:" + two separators + ... inside in_class_file, against ANY base pair
+   with the same scheme on the two sides (no base, a non-file base, a FILE base): agree_good, and a successful pair
+   of results is a full_base pair.  Beside C01_statement_all2: against a file base these inputs are still in class 1
+   of Known_C01. *)
+Theorem C01_eq_file_two_slashes : forall dbg hp hpo hd shp shs base sbase input,
+  usv_list input -> in_class_file input = true -> two_sl_file input = true ->
+  base_sch_rel base sbase ->
+  host_agree_file hp hd shp shs (class_host_text_f input) ->
+  agree_good dbg shs (parse_url dbg hp hpo hd None base input) (spec_basic_url_parse shp input sbase)
+  /\ (forall su u, spec_basic_url_parse shp input sbase = BDone su -> parse_url dbg hp hpo hd None base input = POk u ->
+        full_base dbg shs u su).
+Proof. exact class_file_two_good. Qed.
+Check C01_eq_file_two_slashes : forall dbg hp hpo hd shp shs base sbase input,
+  usv_list input -> in_class_file input = true ->
+  match spec_scheme (spec_clean input) with
+  | Some (sch, c1 :: c2 :: _) => list_eqb sch str_file && is_sl c1 && is_sl c2
+  | _ => false
+  end = true ->
+  match base, sbase with None, None => True | Some b, Some sb => b_scheme b = su_scheme sb | _, _ => False end ->
+  host_agree_file hp hd shp shs (class_host_text_f input) ->
+  agree_good dbg shs (parse_url dbg hp hpo hd None base input) (spec_basic_url_parse shp input sbase)
+  /\ (forall su u, spec_basic_url_parse shp input sbase = BDone su -> parse_url dbg hp hpo hd None base input = POk u ->
+        full_base dbg shs u su).
+Print Assumptions C01_eq_file_two_slashes.
+
+(* with the host model plugged in: relative to IdnaOK only; bases: None or any full_base pair (file bases included) *)
+Theorem C01_statement_file_two_slashes_model : forall dbg idna, IdnaOK idna -> forall input base sbase,
+  usv_list input -> full_rel dbg spec_host_serializer base sbase ->
+  in_class_file input = true -> two_sl_file input = true ->
+  agree_good dbg spec_host_serializer
+    (parse_url dbg (host_parse idna) host_parse_opaque host_display None base input)
+    (spec_basic_url_parse (spec_host_parser idna) input sbase)
+  /\ (forall su u, spec_basic_url_parse (spec_host_parser idna) input sbase = BDone su ->
+        parse_url dbg (host_parse idna) host_parse_opaque host_display None base input = POk u ->
+        full_base dbg spec_host_serializer u su).
+Proof. exact class_file_two_model. Qed.
+Print Assumptions C01_statement_file_two_slashes_model.
+
+(* non-vacuity: against the parse result of file://h/tmp/x (a file base), file://h2.x/a/../b?q and fIle:\\/y are in
+   the class and in class 1 of Known_C01; both sides give file://h2.x/b?q and file:///y *)
+Example C01_eq_file_two_slashes_nonvacuous :
+  let idna := id_idna in
+  let P base i := parse_url true (host_parse idna) host_parse_opaque host_display None base i in
+  let S sbase i := spec_basic_url_parse (spec_host_parser idna) i sbase in
+  let i1 := [102;105;108;101;58;47;47;104;50;46;120;47;97;47;46;46;47;98;63;113] in
+  let i2 := [102;73;108;101;58;92;92;47;121] in
+  match P None file_base_text, S None file_base_text with
+  | POk b, BDone sb =>
+      su_scheme sb = str_file
+      /\ in_class_file i1 = true /\ two_sl_file i1 = true /\ in_class_file i2 = true /\ two_sl_file i2 = true
+      /\ known_c01 (Some b) i1 = 1 /\ known_c01 (Some b) i2 = 1
+      /\ match P (Some b) i1, S (Some sb) i1 with
+         | POk u, BDone su => q_href u = [102;105;108;101;58;47;47;104;50;46;120;47;98;63;113]
+                              /\ api_of_model true u = Some (spec_api_list spec_host_serializer su)
+         | _, _ => False end
+      /\ match P (Some b) i2, S (Some sb) i2 with
+         | POk u, BDone su => q_href u = [102;105;108;101;58;47;47;47;121]
+                              /\ api_of_model true u = Some (spec_api_list spec_host_serializer su)
+         | _, _ => False end
+  | _, _ => False
+  end.
+Proof. exact class_file_two_nonvacuous. Qed.
